@@ -278,10 +278,14 @@ def api_readout(ctx, nbuilds):
                        ("positive" if m == "hellinger" else "zerorows"), True))
     combos.append(("bit_hamming", {}, "bits", False))
     rng.shuffle(combos)
-    for (metric, kwds, kind, sparse) in combos[:nbuilds]:
-        n = rng.choice([5, 12, 40, 90])
-        dim = rng.choice([3, 6, 12])
-        k = rng.choice([3, 5, 10, 15])
+    # corpus of past minimal disagreements: always first, fixed sizes
+    corpus = [("cosine", {}, "zerorows", True, 6, 4, 10), ("hellinger", {}, "positive", True, 8, 5, 15), ("dot", {}, "gauss", False, 5, 3, 8),
+              ("jaccard", {}, "binary", True, 6, 5, 10), ("correlation", {}, "zerorows", True, 40, 4, 3), ("cosine", {}, "zerorows", False, 7, 3, 10)]
+    todo = [c for c in corpus] + [(m, kw_, kd, sp, None, None, None) for (m, kw_, kd, sp) in combos[:nbuilds]]
+    for (metric, kwds, kind, sparse, n_fix, dim_fix, k_fix) in todo:
+        n = n_fix or rng.choice([5, 12, 40, 90])
+        dim = dim_fix or rng.choice([3, 6, 12])
+        k = k_fix or rng.choice([3, 5, 10, 15])
         if kind == "bits":
             X = np.random.RandomState(rng.randrange(10 ** 6)).randint(0, 256, size=(n, dim)).astype(np.uint8)
         else:
